@@ -12,6 +12,8 @@ def value_corpus(F, tier, name):
     recs += gen.g_seams(F, rng)[:: 2 if q else 1]
     recs += gen.g_short_ties(F, rng, 1 if q else 20)[:: 2 if q else 1]
     recs += gen.g_low_decade(F, rng, tier, 6 if q else 300, 1 if q else 4)
+    recs += gen.g_beyond_range(F, rng, 1 if q else 4)[:: 2 if q else 1]
+    recs += gen.g_int_ties(F, rng, 40 if q else 800)
     recs += gen.g_extremes(F, rng, big=20000 if q else 1000000)
     recs += gen.g_runs(F, rng, 80 if q else 3000)
     return gen.normalise(gen.dedup(recs))
@@ -354,6 +356,7 @@ def long_corpus(F, tier, name):
             if r["tag"].split(":")[1] in ("far1", "nines", "zeros", "exact", "last+1", "last-1", "trunc", "truncup")]
     recs = [r for r in recs if len(r["int"]) + len(r["frac"]) > 19]
     recs += gen.g_runs(F, rng, 100 if q else 4000)
+    recs += gen.g_int_ties(F, rng, 30 if q else 600)
     big = 100000 if q else 1000000
     # exact ties with a far-out digit / tails of every length class
     for ef in rng.sample(range(1, F.emaxfield), 5 if q else 80):
@@ -400,6 +403,7 @@ def range_corpus(F, tier, name):
     for r in gen.g_low_decade(F, rng, tier, 0, 1 if q else 6):
         r["tag"] = "C07:lowdecade:" + r["tag"].split(":")[1]
         recs.append(r)
+    recs += gen.g_beyond_range(F, rng, 1 if q else 5)
     for ef in (F.emaxfield - 1, F.emaxfield - 2, 1, 2):
         for fr in ((0, (1 << F.mbits) - 1) if q else (0, 1, (1 << F.mbits) - 1, (1 << F.mbits) - 2)):
             for r in gen.midpoint_variants(F, (ef << F.mbits) | fr, rng, tier):
@@ -472,6 +476,8 @@ def c04(tier):
         inputs += gen.g_midpoints(F, rng, tier, nexp=25 if q else 300, nrand=1)
         inputs += gen.g_seams(F, rng)[:: 2 if q else 1]
         inputs += gen.g_extremes(F, rng, big=100000 if q else 1000000)
+        inputs += gen.g_beyond_range(F, rng, 1 if q else 4)
+        inputs += gen.g_int_ties(F, rng, 20 if q else 400)
         inputs += gen.g_runs(F, rng, 100 if q else 2500)
     inputs = gen.normalise(gen.dedup(inputs))
     parsecheck.parse_property_check(
